@@ -583,6 +583,23 @@ def do_export(ctx, env, be, opt):
             pk['units'] = opt.get('units', True)
             pk.update(opt.get('kwargs') or {})
         text = exp.parse(**pk)
+        # history on one environment: the same exporter asked again, and a fresh exporter after ANOTHER back-end has gone
+        # over the environment, say the same ("for every parsed environment" - also one that was exported before)
+        again = exp.parse(**pk)
+        if again != text:
+            return 'history-differs', ('the same exporter asked twice', text, again)
+        other = {'c': 'json', 'cpp': 'bash', 'fortran': 'c', 'rust': 'yaml', 'bash': 'rust', 'json': 'fortran', 'yaml': 'cpp', 'toml': 'dip', 'dip': 'toml'}.get(be)
+        if other in ctx['classes']:
+            try:
+                ctx['classes'][other](env).parse()
+            except Exception:
+                pass
+            exp3 = cls(env, **kw)
+            if opt.get('query') is not None or opt.get('tags') is not None:
+                exp3.select(query=opt.get('query'), tags=opt.get('tags'))
+            fresh = exp3.parse(**pk)
+            if fresh != text:
+                return 'history-differs', ('fresh exporter after a %s export of the same environment' % other, text, fresh)
         tmp = tempfile.mkdtemp(prefix='vt_c19_')
         path = os.path.join(tmp, 'exported.txt')
         exp.save(path)
@@ -871,6 +888,10 @@ def run_round(ctx, be, opt, nodes, first):
         rd.count('refusals_accepted')
         rd.sample = dict(be=be, opt=opt, refused=repr(res)[:200])
         return rd
+    if kind == 'history-differs':
+        rd.new('export-depends-on-earlier-exports-of-the-environment', None, dict(what=res[0], first=res[1][:300], later=res[2][:300]))
+        return rd
+    rd.count('export_history_twins')
     if kind == 'save-differs':
         rd.new('saved-file-differs-from-parse-text', None, dict(text=res[0][:200], saved=res[1][:200]))
         return rd
